@@ -173,18 +173,32 @@ def check(run: Run) -> None:
 
     keys = carried_param_terms(m, ctx, lk, fcls, gv, lk.pos_params[1])
     found_stores = [n for n in own_nodes(gv) if isinstance(n, ast.Assign) and any(isinstance(tg, ast.Attribute) and tg.attr == "_found" for tg in n.targets)]
+    closure_list = None
+    if not found_stores:
+        # what was found is appended to a list of the enclosing function: occurrences.append(q_metadata[name]) .. and the
+        # lookup answers with the last one (a later find replaces an earlier one, as with the attribute)
+        apps_ = [n for n in own_nodes(gv) if isinstance(n, ast.Expr) and isinstance(n.value, ast.Call) and isinstance(n.value.func, ast.Attribute) and n.value.func.attr == "append" and isinstance(n.value.func.value, ast.Name) and len(n.value.args) == 1 and fg.cfg.has_node(n) and strip_sites(fg.term_of(n.value.func.value))[0] == "free"]
+        if apps_ and len({a_.value.func.value.id for a_ in apps_}) == 1:
+            closure_list = apps_[0].value.func.value.id
+            found_stores = [ast.copy_location(ast.Assign(targets=[ast.Name(id="_", ctx=ast.Store())], value=a_.value.args[0], type_comment=None), a_) for a_ in apps_]
+            for fs_, a_ in zip(found_stores, apps_):
+                fs_._parent = getattr(a_, "_parent", None)  # type: ignore
+                fs_._stands_for = a_  # type: ignore
+    if not found_stores and not any(isinstance(n_, ast.Attribute) and n_.attr == "_found" for f_ in fcls.methods.values() for n_ in own_nodes(f_)):
+        raise AnalysisError("the finder of lookup_query_metadata keeps what it found somewhere else than in an attribute of its own (a list of the enclosing function, ..): which occurrence wins cannot be read")
     run.check(len(found_stores) >= 1, "C16.R3", gv, gv.node, "the found value is recorded", "lookup never records a value")
     for st in found_stores:
+        at_ = getattr(st, "_stands_for", st)
         v = strip_sites(fg.term_of(st.value))
         key = next((k_ for k_ in keys if any(a == ("subscript", dct, k_) for a in unphi_terms(v))), keys[0])
         ok_v = any(a == ("subscript", dct, key) for a in unphi_terms(v)) or v == ("subscript", dct, key)
-        run.check(ok_v, "C16.R3", gv, st, "recorded value is node._q_metadata[key]", f"recorded value is {show(v)[:100]}", term=show(v))
-        run.check(_member_fact(fg, st, dct, key, True), "C16.R3", gv, st, "value recorded under the fact 'key in node._q_metadata'", "the value is recorded under a condition other than key membership (e.g. truthiness of the stored value): a key set to a falsy value does not stop the search and an older value is returned", "if metadata_name in q_metadata")
+        run.check(ok_v, "C16.R3", gv, at_, "recorded value is node._q_metadata[key]", f"recorded value is {show(v)[:100]}", term=show(v))
+        run.check(_member_fact(fg, at_, dct, key, True), "C16.R3", gv, at_, "value recorded under the fact 'key in node._q_metadata'", "the value is recorded under a condition other than key membership (e.g. truthiness of the stored value): a key set to a falsy value does not stop the search and an older value is returned", "if metadata_name in q_metadata")
     desc = [c for c in calls_in(gv) if isinstance(c.func, ast.Attribute) and c.func.attr == "generic_visit" and isinstance(c.func.value, ast.Call)]
     run.check(len(desc) == 1 and strip_sites(fg.term_of(desc[0].args[-1])) == gnode, "C16.R3", gv, gv.node, "descends with the base generic_visit(node)", "lookup does not descend into the node's children with the base generic_visit")
     if len(desc) == 1:
         # exactly one of {record, descend} on every path
-        rec_nodes = {fg.cfg.node_of(s) for s in found_stores}
+        rec_nodes = {fg.cfg.node_of(getattr(s, "_stands_for", s)) for s in found_stores}
         dn = fg.cfg.node_of(desc[0])
         kinds = set()
         for p in fg.cfg.paths():
@@ -194,9 +208,16 @@ def check(run: Run) -> None:
     rt = strip_sites(fl.return_term())
     fprop = fcls.methods.get("found")
     ok_rt = rt[0] == "attr" and rt[2] in ("_found", "found")
+    if closure_list is not None:
+        # return occurrences[-1] if occurrences else None
+        rets_ = [s_ for s_, _n in fl.returns()]
+        def _last(e_):
+            return isinstance(e_, ast.Subscript) and isinstance(e_.value, ast.Name) and e_.value.id == closure_list and ((isinstance(e_.slice, ast.UnaryOp) and isinstance(e_.slice.op, ast.USub) and isinstance(e_.slice.operand, ast.Constant) and e_.slice.operand.value == 1) or (isinstance(e_.slice, ast.Constant) and e_.slice.value == -1))
+        from ..lib import known_empty as _ke
+        ok_rt = bool(rets_) and all((_last(r_.value) and _ke(Facts(fl, r_).atoms, closure_list) is False) or (isinstance(r_.value, ast.Constant) and r_.value.value is None and _ke(Facts(fl, r_).atoms, closure_list) is True) for r_ in rets_) and any(_last(r_.value) for r_ in rets_)
     run.check(ok_rt, "C16.R3", lk, lk.node, "lookup returns the recorded value (None if never set)", f"lookup returns {show(rt)[:100]}", term=show(rt))
     init = fcls.methods.get("__init__")
-    if init is not None:
+    if init is not None and closure_list is None:
         none_init = any(isinstance(n, ast.Assign) and any(isinstance(tg, ast.Attribute) and tg.attr == "_found" for tg in n.targets) and isinstance(n.value, ast.Constant) and n.value.value is None for n in own_nodes(init))
         run.check(none_init, "C16.R3", init, init.node, "_found starts as None", "_found is not initialised to None")
     visits = [c for c in calls_in(lk) if isinstance(c.func, ast.Attribute) and c.func.attr == "visit"]
@@ -334,6 +355,12 @@ def _in_loop(cn, lp: ast.For) -> bool:
 def _knows_equal(fa, facts, kv, vv, selfp) -> bool:
     """facts imply: lookup(self, key) is not None and lookup(self, key) == value."""
     eq = False
+    # read with the lookup kept as a call: "the value the lookup gave" whatever the lookup is made of
+    ctx_o = fa.ctx.__dict__.get("_lookup_opaque_ctx")
+    if ctx_o is None:
+        ctx_o = TermCtx(fa.model, max_depth=1, opaque={"lookup_query_metadata"})
+        fa.ctx.__dict__["_lookup_opaque_ctx"] = ctx_o
+    fa = ctx_o.analysis(fa.fi)
     for a, pol in facts:
         if isinstance(a, ast.Compare) and len(a.ops) == 1:
             op = type(a.ops[0])
